@@ -50,27 +50,61 @@ def extract_get_lims(status):
         return "def getLims : Side → IClosed → Side × Side := fun _ _ => (.left, .right)  -- extraction failed"
 
 
-def extract_sample_side(status):
-    """sampling.sample: which limit side is used for each closed side (read from the assignment to `side`)"""
+def _sample_side_by_evaluation():
+    """run `sample` on a real function of each closed side with the module-level `limit` replaced by a recorder"""
+    _fresh_import()
+    import staircase as sc
+    import staircase.core.sampling as S
+    out = {}
+    real = S.limit
     try:
-        src = open(os.path.join(REPO, "staircase/core/sampling.py")).read()
-        tree = ast.parse(src)
-        fn = next(n for n in ast.walk(tree) if isinstance(n, ast.FunctionDef) and n.name == "sample")
-        assign = next(n for n in ast.walk(fn) if isinstance(n, ast.Assign) and
-                      any(isinstance(t, ast.Name) and t.id == "side" for t in n.targets))
-        expr = ast.Expression(assign.value)
-        ast.fix_missing_locations(expr)
-        code = compile(expr, "<sample-side>", "eval")
-        out = {}
         for fc in ("left", "right"):
-            ns = types.SimpleNamespace(_closed=fc, closed=fc)
-            out[fc] = eval(code, {"self": ns})  # noqa: S307 - expression from the repository under test
-        status["sampleSide"] = "ok"
-        return ("def sampleSide : Side → Side\n" +
-                "\n".join(f"  | {SIDE[k]} => {SIDE[v]}" for k, v in out.items()))
-    except Exception as exc:  # noqa: BLE001
-        status["sampleSide"] = "failed: " + repr(exc)[:200]
-        return "def sampleSide : Side → Side := fun s => s  -- extraction failed"
+            seen = []
+
+            def rec(self, x, side="right", *a, **k):
+                seen.append(side)
+                return real(self, x, side, *a, **k)
+            S.limit = rec
+            sc.Stairs(closed=fc).layer(1, 2).sample(1)
+            if len(set(seen)) != 1 or seen[0] not in SIDE:
+                raise ValueError(f"limit sides recorded: {seen}")
+            out[fc] = seen[0]
+    finally:
+        S.limit = real
+    return out
+
+
+def _sample_side_by_ast():
+    src = open(os.path.join(REPO, "staircase/core/sampling.py")).read()
+    tree = ast.parse(src)
+    fn = next(n for n in ast.walk(tree) if isinstance(n, ast.FunctionDef) and n.name == "sample")
+    assign = next(n for n in ast.walk(fn) if isinstance(n, ast.Assign) and
+                  any(isinstance(t, ast.Name) and t.id == "side" for t in n.targets))
+    expr = ast.Expression(assign.value)
+    ast.fix_missing_locations(expr)
+    code = compile(expr, "<sample-side>", "eval")
+    out = {}
+    for fc in ("left", "right"):
+        ns = types.SimpleNamespace(_closed=fc, closed=fc)
+        out[fc] = eval(code, {"self": ns})  # noqa: S307 - expression from the repository under test
+    return out
+
+
+def extract_sample_side(status):
+    """sampling.sample: which limit side is used for each closed side.  First by evaluation (the `limit` the method
+    calls is replaced by a recorder – robust against renamed locals / extracted helpers), else from the syntax (the
+    assignment to `side`)."""
+    errs = []
+    for how, fn in (("evaluated", _sample_side_by_evaluation), ("ast", _sample_side_by_ast)):
+        try:
+            out = fn()
+            status["sampleSide"] = "ok (" + how + ")"
+            return ("def sampleSide : Side → Side\n" +
+                    "\n".join(f"  | {SIDE[k]} => {SIDE[out[k]]}" for k in ("left", "right")))
+        except Exception as exc:  # noqa: BLE001
+            errs.append(how + ": " + repr(exc)[:120])
+    status["sampleSide"] = "failed: " + "; ".join(errs)
+    return "def sampleSide : Side → Side := fun s => s  -- extraction failed"
 
 
 def extract_slicer_endpoint(status):
@@ -197,23 +231,60 @@ def extract_mismatch_cond(status):
         return "def mismatchCond : Bool → Side → Bool → Side → Bool := fun _ _ _ _ => true  -- extraction failed"
 
 
-def extract_clip_sides(status):
-    """masking.clip: the bisect sides passed to _get_slice_index (syntax)"""
+def _clip_sides_by_evaluation():
+    """run `clip` with both bounds on step points while the `bisect` module seen by masking.py records which bisect
+    function is applied to which bound"""
+    _fresh_import()
+    import bisect as _bisect
+    import staircase as sc
+    import staircase.core.ops.masking as M
+    calls = []
+
+    def wrap(name):
+        real = getattr(_bisect, "bisect_" + name)
+
+        def f(a, x, *args, **kw):
+            calls.append((name, x))
+            return real(a, x, *args, **kw)
+        return f
+    fake = types.SimpleNamespace(**{k: getattr(_bisect, k) for k in dir(_bisect) if not k.startswith("__")})
+    fake.bisect_left, fake.bisect_right, fake.bisect = wrap("left"), wrap("right"), wrap("right")
+    real_mod = M.bisect
     try:
-        src = open(os.path.join(REPO, "staircase/core/ops/masking.py")).read()
-        tree = ast.parse(src)
-        fn = next(n for n in ast.walk(tree) if isinstance(n, ast.FunctionDef) and n.name == "clip")
-        call = next(n for n in ast.walk(fn) if isinstance(n, ast.Call) and
-                    getattr(n.func, "id", getattr(n.func, "attr", None)) == "_get_slice_index")
-        kw = {k.arg: k.value.value for k in call.keywords if isinstance(k.value, ast.Constant)}
-        pos = [a.value for a in call.args[3:] if isinstance(a, ast.Constant)]
-        lower = kw.get("lower_how", pos[0] if pos else None)
-        upper = kw.get("upper_how", pos[1] if len(pos) > 1 else None)
-        status["clipSides"] = "ok"
-        return f"def clipSides : Side × Side := ({SIDE[lower]}, {SIDE[upper]})"
-    except Exception as exc:  # noqa: BLE001
-        status["clipSides"] = "failed: " + repr(exc)[:200]
-        return "def clipSides : Side × Side := (.left, .right)  -- extraction failed"
+        M.bisect = fake
+        sc.Stairs().layer(1, 3).layer(2, 4).clip(2, 3)
+    finally:
+        M.bisect = real_mod
+    lower = {n for n, x in calls if x == 2}
+    upper = {n for n, x in calls if x == 3}
+    if len(lower) != 1 or len(upper) != 1:
+        raise ValueError(f"bisect calls recorded: {calls}")
+    return lower.pop(), upper.pop()
+
+
+def _clip_sides_by_ast():
+    src = open(os.path.join(REPO, "staircase/core/ops/masking.py")).read()
+    tree = ast.parse(src)
+    fn = next(n for n in ast.walk(tree) if isinstance(n, ast.FunctionDef) and n.name == "clip")
+    call = next(n for n in ast.walk(fn) if isinstance(n, ast.Call) and
+                any(k.arg in ("lower_how", "upper_how") for k in n.keywords))
+    kw = {k.arg: k.value.value for k in call.keywords if isinstance(k.value, ast.Constant)}
+    return kw["lower_how"], kw["upper_how"]
+
+
+def extract_clip_sides(status):
+    """masking.clip: the bisect sides used for the lower and the upper bound.  First by evaluation (recording bisect
+    wrappers – robust against renamed helpers), else from the syntax (the call carrying lower_how= / upper_how=)."""
+    errs = []
+    for how, fn in (("evaluated", _clip_sides_by_evaluation), ("ast", _clip_sides_by_ast)):
+        try:
+            lower, upper = fn()
+            status["clipSides"] = "ok (" + how + ")"
+            return f"def clipSides : Side × Side := ({SIDE[lower]}, {SIDE[upper]})"
+        except Exception as exc:  # noqa: BLE001
+            errs.append(how + ": " + repr(exc)[:120])
+    status["clipSides"] = "failed: " + "; ".join(errs)
+    return "def clipSides : Side × Side := (.left, .right)  -- extraction failed"
 
 
 def _is_self_attr(node, name):
